@@ -7,11 +7,13 @@ sys.path.insert(0, os.path.dirname(os.path.dirname(os.path.abspath(__file__))))
 from psv import core
 core.NORMALIZE_FOLD = False
 core.NORMALIZE_NEW_LOCALS = False
+core.NORMALIZE_LOOPS = False
 P = core.load(tier="thorough")
 inv = sorted({"%s:%s" % (os.path.basename(f.file), f.name) for v in P.variants.values() for f in v.values() if f.file.startswith(core.REPO)})
 # locals (file:function:name) and functions that contain a switch: what the rules' literal shapes were written against
 loc = set()
 sw = set()
+tails = set()
 for v in P.variants.values():
     for f in v.values():
         if not f.file.startswith(core.REPO):
@@ -23,5 +25,11 @@ for v in P.variants.values():
                         loc.add("%s:%s:%s" % (os.path.basename(f.file), f.name, d["name"]))
             elif n["k"] == "SwitchStmt":
                 sw.add("%s:%s" % (os.path.basename(f.file), f.name))
-json.dump(dict(functions=inv, locals=sorted(loc), switches=sorted(sw)), open(os.path.join(core.VERIF, "psv", "inventory.json"), "w"), indent=0)
-print(len(inv), "functions,", len(loc), "locals,", len(sw), "functions with a switch")
+            elif n["k"] in ("ForStmt", "WhileStmt", "DoStmt", "CXXForRangeStmt"):
+                b = n.get("body", -1)
+                if b is not None and b >= 0 and f.nodes[b]["k"] == "CompoundStmt":
+                    kids = [x for x in f.nodes[b]["ch"] if x >= 0]
+                    if kids and f.nodes[kids[-1]]["k"] == "IfStmt" and f.nodes[kids[-1]].get("else", -1) >= 0:
+                        tails.add("%s:%s" % (os.path.basename(f.file), f.name))
+json.dump(dict(functions=inv, locals=sorted(loc), switches=sorted(sw), else_tails=sorted(tails)), open(os.path.join(core.VERIF, "psv", "inventory.json"), "w"), indent=0)
+print(len(inv), "functions,", len(loc), "locals,", len(sw), "functions with a switch,", len(tails), "with a loop body ending in if/else")
